@@ -193,7 +193,7 @@ class C19(Check):
     level_text = ('Seeded search over request/read/reset/resize histories against a model counter and over '
                   'reservoir operation histories under adversarial random draws; unbounded history space, sampled.')
     level_note = 'Trusted: the sequential dispatch model used to predict which routes a request reaches.'
-    required_probes = ('reader-changed-its-copy', 'one-application-mounted-under-two-prefixes', 'reservoir-with-repeated-values-shrunk', 'two-stats-applications', 'request-inside-except-block', 'reservoir-overflow', 'reservoir-grow-after-overflow', 'fallthrough-counted', 'reset-read',
+    required_probes = ('query-string-of-raw-bytes', 'iteration-in-progress-across-a-resize', 'reader-changed-its-copy', 'one-application-mounted-under-two-prefixes', 'reservoir-with-repeated-values-shrunk', 'two-stats-applications', 'request-inside-except-block', 'reservoir-overflow', 'reservoir-grow-after-overflow', 'fallthrough-counted', 'reset-read',
                        'negative-duration', 'null-route-405')
 
     # ---- generation --------------------------------------------------------
@@ -225,7 +225,7 @@ class C19(Check):
                 op = {'op': 'req', 'app': (1 if second and rng.random() < 0.4 else 0),
                       # served while the caller is handling an unrelated exception (e.g. a gateway retrying in an except block)
                       'in_except': rng.random() < 0.12, 'path': rng.choice(PATHS), 'method': rng.choice(['GET', 'GET', 'POST', 'HEAD', 'put', 'DELETE']),
-                      'o': rng.choice(sorted(OUTCOMES)), 'jitter': []}
+                      'o': rng.choice(sorted(OUTCOMES)), 'jitter': [], 'raw_query': rng.random() < 0.15}
                 if erng.random() < 0.2:
                     op['jitter'] = [erng.choice([0.0, 0.001, 1.5, -0.5, -30.0, 3600.0]) for _ in range(erng.randint(1, 6))]
                 ops.append(op)
@@ -268,7 +268,10 @@ class C19(Check):
                 ops.append({'add': draws})
             elif r < 0.8:
                 ops.append({'resize': rng.choice([1, 2, cap, cap + 1, 2 * cap, max(1, cap // 2), 64, 3])})
-            elif r < 0.88:
+            elif r < 0.84:
+                # a reader is part-way through the values when the store is resized, and then reads on
+                ops.append({'iter_resize': rng.choice([1, 2, max(1, cap // 2), cap, 2 * cap]), 'first': rng.choice([0, 1, 2, 5])})
+            elif r < 0.9:
                 # a reader takes the values as a list and works on ITS list (sorts it, trims it, pads it)
                 ops.append({'tolist': rng.choice(['append', 'clear', 'sort-reverse', 'extend', 'pop'])})
             else:
@@ -311,6 +314,20 @@ class C19(Check):
                             added.append(v)
                             r.add(v)
                         last = 'add-after-grow' if grown_after_overflow else 'add'
+                    elif 'iter_resize' in op:
+                        it = iter(r)
+                        for _ in range(op['first']):
+                            next(it, None)
+                        if op['iter_resize'] > cap and n > cap:
+                            grown_after_overflow = True
+                        before = list(r)
+                        cap = op['iter_resize']
+                        r.resize(cap)
+                        if cap < len(before):
+                            truncated = True
+                        list(it)        # the reader goes on: whatever it still gets, it must not raise
+                        last = 'iter-across-resize'
+                        res.probe('iteration-in-progress-across-a-resize')
                     elif 'tolist' in op:
                         lst = r.to_list()     # (what the reader does to ITS list is judged by the invariants below)
                         how = op['tolist']
@@ -345,7 +362,7 @@ class C19(Check):
                     contents = list(r)
                 except Exception as e:
                     res.violate(K + 'raises:%s@%s' % (type(e).__name__, 'add-after-grow' if grown_after_overflow and 'add' in op else
-                                                      ('add' if 'add' in op else 'resize' if 'resize' in op else 'tolist' if 'tolist' in op else 'iter')),
+                                                      ('add' if 'add' in op else 'resize' if 'resize' in op else 'tolist' if 'tolist' in op else 'iter-across-resize' if 'iter_resize' in op else 'iter')),
                                 'step %d %s: %r (cap %r, %d added)' % (step, canon(op)[:80], e, cap, n), step)
                     return res
                 if n > cap:
@@ -428,6 +445,10 @@ class C19(Check):
                         res.fire('clock_jump_back_within_request')
                         res.probe('negative-duration')
                     env = make_environ(op['method'].upper(), op['path'] + '?o=' + op.get('o', 'ok'))
+                    if op.get('raw_query'):
+                        # a client that sends its query string as raw (non-UTF-8) bytes
+                        env['QUERY_STRING'] = env['QUERY_STRING'] + '&name=caf\xe9&x=\xff'
+                        res.probe('query-string-of-raw-bytes')
                     if op.get('in_except'):
                         res.probe('request-inside-except-block')
                         try:
